@@ -46,7 +46,10 @@ def tables_for(names):
             for i, n in enumerate(names)}
     out = [("none", {}), ("all", full),
            ("first", {names[0]: full[names[0]]}),
-           ("short-last", {names[-1]: full[names[-1]][:2]})]
+           ("short-last", {names[-1]: full[names[-1]][:2]}),
+           # a stream listed with no seed at all: every replication number
+           # lies beyond its list
+           ("empty-last", {names[-1]: []})]
     return out
 
 
@@ -264,6 +267,57 @@ def evaluate_all(limit_orders=None):
         if StreamSeedInformation().get_stream("default") is \
                 StreamSeedInformation().get_stream("default"):
             bad.append(("default-stream-object-shared-between-instances",))
+        # the same for the plain StreamInformation: every instance made
+        # without arguments has its own, equally seeded default stream
+        from pydsol.core.streams import StreamInformation
+        i1 = StreamInformation()
+        d1 = draws(i1.get_stream("default"))
+        i1.get_stream("default").set_seed(4711 + r)
+        i2 = StreamInformation()
+        if i2.get_stream("default") is i1.get_stream("default") or \
+                draws(i2.get_stream("default")) != d1 or \
+                i2.get_stream("default").seed() == 4711 + r:
+            bad.append(("default-stream-of-StreamInformation-depends-on-"
+                        "earlier-instances",))
+    # ---------------- seed lists replaced through add_seed_values: the table
+    # is a function of the last list given per stream, not of the history
+    LISTS = ([11, 12, 13, 14], [21, 22], [31], [], [41, 42, 43, 44, 45])
+    for first in LISTS:
+        for second in LISTS:
+            for third in (None, [51, 52, 53]):
+                info = StreamSeedInformation()
+                info.add_stream("x", MersenneTwister(5))
+                given = [list(first), list(second)] + (
+                    [list(third)] if third is not None else [])
+                o = "ok"
+                for g in given:
+                    o = outcome(lambda: info.add_seed_values("x", g))
+                    if o != "ok":
+                        break
+                key = "replace|%r" % (given,)
+                if o != "ok":
+                    bad.append(("add_seed_values-refused", key, o))
+                    continue
+                last = given[-1]
+                got = info.get_seeds().get("x")
+                res[key] = got
+                if got != last:
+                    bad.append(("seed-table-depends-on-earlier-lists", key,
+                                got, last))
+                if given != [list(first), list(second)] + (
+                        [list(third)] if third is not None else []):
+                    bad.append(("add_seed_values-changed-a-callers-list", key,
+                                given))
+                upd = StreamSeedUpdater(info.get_seeds())
+                for r in range(0, 6):
+                    s = info.get_stream("x")
+                    before = s.seed()
+                    o = outcome(lambda: upd.update_seed("x", s, r))
+                    want = "ok" if r < len(last) else "ValueError"
+                    if o != want or (o == "ok" and s.seed() != last[r]) or \
+                            (o != "ok" and s.seed() != before):
+                        bad.append(("replaced-seed-list-served-wrongly", key,
+                                    r, o, s.seed()))
     # ---------------- the seed table is edited after the updater was built
     for names in NAME_SETS:
         n0 = names[0]
